@@ -6,6 +6,11 @@ refusal.  A second family of histories works on LARGE arrays (capacities 300 .. 
 set exactly with shrink or reached by a far put / block appends) and then puts / inserts at
 1x .. 3x the capacity, appends across the capacity edge, deletes big ranges, shifts big blocks:
 anything in the growth / move arithmetic that depends on the absolute size shows there.
+A third family is about sort / bsearch after ANY history: sorts by two comparators (repeated,
+alternating), searches, mutators through json_object_array_* AND through array_list_* on
+json_object_get_array(arr) (lower-case ops), element values changed in place (json_object_set_int /
+set_int64 / set_string on an element): after every sort the array must be a permutation of what it
+held, ordered by the comparator on the CURRENT values, and a search must find exactly the present keys.
 Both APIs are driven: array_list_* (mode d) and json_object_array_* (mode j)."""
 PROP = "C07"
 DOMAIN = "al"
@@ -13,7 +18,8 @@ LEVEL = "proof"
 TECHNIQUE = "Coq refinement proof (AlProofs.v) + extracted-model/C differential correspondence"
 RULE = ("histories of 1..40 array operations (add, put_idx, insert_idx, del_idx, get_idx, shrink, sort, bsearch) generated from "
         "one PRNG with a shadow of (length, capacity) used only to aim indices/counts at the boundaries, plus large-array histories "
-        "(capacity 300..65537 slots, indices up to 3x the capacity, block appends M<k>); two API modes; a case is "
+        "(capacity 300..65537 slots, indices up to 3x the capacity, block appends M<k>), plus sort/search histories (two comparators, "
+        "repeated sorts, mutators through both APIs of one array, in-place value changes V<i>,<v>); two API modes; a case is "
         "non-trivial when at least one operation succeeded and the capacity changed or an operation was refused; distinct = "
         "distinct (script) among those")
 TRUSTED = ["Coq 8.16.1 kernel (coqc), no axioms (Print Assumptions: closed under the global context)",
@@ -37,8 +43,142 @@ def estr(e):
 def gen(rng, tier):
     n = 3000 if tier == "quick" else 200000
     nbig = 80 if tier == "quick" else 3000
-    out = gen_small(rng, n - nbig)
+    nsort = 400 if tier == "quick" else 20000
+    out = gen_small(rng, n - nbig - nsort)
+    out += gen_sortmix(rng, nsort)
     out += gen_big(rng, nbig)
+    return out
+
+
+def gen_sortmix(rng, n):
+    """sort / bsearch after ANY history: sorts by either comparator (repeated, alternating), searches, the mutators
+    of the API in use, the same mutators through array_list_* on json_object_get_array() (lower-case ops),
+    in-place changes of element values; small value range so that duplicates and search hits are common"""
+    out = []
+    for ci in range(n):
+        mode = "j" if rng.random() < 0.75 else "d"
+        init = rng.choice([0, 1, 2, 4, 8, 32])
+        limit = BIG if rng.random() < 0.9 else rng.choice([128, 256, 512])
+        sh = []
+        cap = init
+        by = None                      # comparator the shadow is known to be ordered by
+        ops = []
+        vmax = rng.choice([6, 20, 60, 1000])
+
+        def val():
+            return None if rng.random() < 0.08 else rng.randint(1, vmax)
+
+        def grow(need):
+            nonlocal cap
+            if need < cap:
+                return True
+            ns = max(cap * 2, need)
+            if ns * 8 > limit:
+                return False
+            cap = ns
+            return True
+
+        def lc(c):                     # through the array_list of the json array, or through the json API
+            return c.lower() if rng.random() < 0.45 else c
+
+        def mutate():
+            nonlocal by
+            L = len(sh)
+            r = rng.random()
+            if r < 0.30:
+                e = val()
+                ops.append(lc("A") + estr(e))
+                if grow(L + 1):
+                    sh.append(e)
+            elif r < 0.50:
+                i, e = rng.choice([0, L - 1, L, L + 1, L + 3, rng.randint(0, max(L, 1))]), val()
+                i = max(i, 0)
+                ops.append("%s%d,%s" % (lc("P"), i, estr(e)))
+                if grow(i + 1):
+                    if i < L:
+                        sh[i] = e
+                    else:
+                        sh.extend([None] * (i - L) + [e])
+            elif r < 0.66:
+                i, e = rng.choice([0, L - 1, L, L + 2, rng.randint(0, max(L, 1))]), val()
+                i = max(i, 0)
+                ops.append("%s%d,%s" % (lc("I"), i, estr(e)))
+                if i >= L:
+                    if grow(i + 1):
+                        sh.extend([None] * (i - L) + [e])
+                elif grow(L + 1):
+                    sh.insert(i, e)
+            elif r < 0.90:
+                # in place: the array is not told
+                i = rng.choice([0, L - 1, L, rng.randint(0, max(L, 1)), rng.randint(0, max(L - 1, 0))])
+                i = max(i, 0)
+                v = rng.randint(1, vmax)
+                ops.append("V%d,%d" % (i, v))
+                if i < L and sh[i] is not None:
+                    sh[i] = v
+            else:
+                k = rng.randint(1, 4)
+                v0 = rng.randint(1, vmax)
+                ops.append("%s%d,%d" % (lc("M"), k, v0))
+                for j in range(k):
+                    if not grow(len(sh) + 1):
+                        break
+                    sh.append(v0 + j)
+            by = None
+
+        def sort(c=None):
+            nonlocal by
+            c = c or rng.choice("SSR")
+            ops.append(lc(c))
+            sh.sort(key=lambda x: (x is not None, x or 0), reverse=(c == "R"))
+            by = c
+
+        def search():
+            ks = [x for x in sh if x is not None]
+            key = rng.choice(ks) if ks and rng.random() < 0.6 else rng.randint(1, vmax + 2)
+            ops.append("%s%d" % (lc("B" if by == "S" else "C"), key))
+
+        for _ in range(rng.randint(1, 4)):
+            mutate()
+        nops = rng.randint(6, 30)
+        while len(ops) < nops:
+            L = len(sh)
+            r = rng.random()
+            if r < 0.22:
+                # the shape "sort; changes; sort by the same comparator again; search"
+                c = rng.choice("SR")
+                if by != c or rng.random() < 0.5:
+                    sort(c)
+                for _ in range(rng.randint(0, 2)):
+                    mutate()
+                sort(c)
+                search()
+            elif r < 0.40:
+                sort()
+                if rng.random() < 0.3:
+                    sort()             # twice in a row, same or other comparator
+            elif r < 0.55 and by:
+                search()
+            elif r < 0.85:
+                mutate()
+            elif r < 0.92:
+                i = rng.choice([0, L - 1, L, rng.randint(0, max(L, 1))])
+                i = max(i, 0)
+                c = rng.choice([0, 1, 1, 2, max(L - i, 0)])
+                ops.append("%s%d,%d" % (lc("D"), i, c))
+                if i < L and i + c <= L:
+                    del sh[i:i + c]        # a range delete keeps the order
+            elif r < 0.96:
+                ops.append("%s%d" % (lc("G"), max(rng.choice([0, L - 1, L]), 0)))
+            else:
+                k = rng.choice([0, 1, 3])
+                ops.append("%s%d" % (lc("H"), k))
+                ns = L + k
+                if ns > cap:
+                    grow(ns)
+                elif ns != cap and max(ns, 1) * 8 <= limit:
+                    cap = max(ns, 1)
+        out.append(("al %s %d %d %s" % (mode, limit, init, ";".join(ops)), {"kind": "sortmix-" + mode}))
     return out
 
 
@@ -307,6 +447,11 @@ def gen_small(rng, n):
 
 
 # ------------------------------------------------------------------ the direct oracle
+def sort_model(lst, desc):
+    """the comparator of the drivers: NULL first then ascending value; the descending one is its reverse"""
+    return sorted(lst, key=skey, reverse=desc)
+
+
 def skey(x):
     return (x is not None, x or 0)
 
@@ -389,7 +534,7 @@ def oracle(line, meta, impl):
     ops = ops.split(";")
     if "LEAK" in impl:
         return ("leak", "element or allocation leaked: " + impl[-60:])
-    if "BADOP" in impl or "BADLINE" in impl:
+    if "BADOP" in impl or "BADLINE" in impl or "BADSET" in impl:
         return ("malformed", "driver rejected the script: " + impl[-60:])
     if impl == "NEWFAIL":
         if 0 <= init and init * 8 <= limit and limit >= 64:
@@ -413,7 +558,9 @@ def oracle(line, meta, impl):
             return ("bounds", "length %d beyond capacity %d %s" % (st["len"], st["size"], where))
         if st["past"] != "1":
             return ("past-end", "a read past the end did not yield null %s" % where)
-        k = op[0]
+        k = op[0].upper()       # lower case = the same operation through array_list_* on json_object_get_array()
+        direct = op[0].islower()
+        op = k + op[1:]
         if k == "G":
             i = int(op[1:])
             want = estr(lst[i]) if i < len(lst) else "n"
@@ -423,14 +570,42 @@ def oracle(line, meta, impl):
                 return ("observer-changed", "a read changed the array %s" % where)
             size = st["size"]
             continue
-        if k == "B":
+        if k == "B" or k == "C":
             key = parse_elt(op[1:])
             if st["data"] != lst or st["rel"]:
                 return ("observer-changed", "a search changed the array %s" % where)
-            if lst == sorted(lst, key=skey) and not (key is None and mode == "j"):
+            # defined only on an array ordered by the comparator used (json_object_array_bsearch cannot report a found NULL)
+            if lst == sort_model(lst, k == "C") and not (key is None and mode == "j" and not direct):
                 want = "f" if key in lst else "nf"
                 if st["ret"] != want:
                     return ("bsearch", "bsearch(%s) = %s but the list model says %s %s" % (estr(key), st["ret"], want, where))
+            continue
+        if k == "S" or k == "R":
+            # whatever happened before (earlier sorts by this or the other comparator, elements stored through
+            # either API, values changed in place): a permutation of the current contents, ordered by the comparator
+            if st["ret"] != "0" or st["rel"]:
+                return ("ret", "sort returned %s / released %s %s" % (st["ret"], st["rel"][:5], where))
+            want = sort_model(lst, k == "R")
+            if sorted(st["data"], key=skey) != sorted(lst, key=skey):
+                return ("sort-not-permutation", "sort did not leave a permutation of the contents %s: before %s after %s" % (
+                    where, ",".join(estr(x) for x in lst)[:80], ",".join(estr(x) for x in st["data"])[:80]))
+            if st["data"] != want:
+                return ("sort-not-ordered", "after the sort the array is not ordered by the comparator %s: got %s want %s" % (
+                    where, ",".join(estr(x) for x in st["data"])[:80], ",".join(estr(x) for x in want)[:80]))
+            lst = want
+            size = st["size"]
+            continue
+        if k == "V":
+            # value of element i changed in place (the array is not called): 1 when there is an element, else 0
+            i, v = [int(x) for x in op[1:].split(",")]
+            has = i < len(lst) and lst[i] is not None
+            if st["ret"] != ("1" if has else "0"):
+                return ("setval-ret", "in-place value change returned %s %s" % (st["ret"], where))
+            new = lst[:i] + [v] + lst[i + 1:] if has else lst
+            if st["data"] != new or st["rel"]:
+                return ("contents", "contents after an in-place value change differ from the list model %s" % where)
+            lst = new
+            size = st["size"]
             continue
         if k == "M":
             # k appends, stopping at the first refusal: the result is the list plus a prefix of the ids
@@ -519,8 +694,10 @@ LEVEL_TEXT = ("Machine-checked refinement: for every allocator behaviour, every 
               "the element at every index equal those of a plain list with null gaps (add, put with null fill, insert with shift, range "
               "delete, shrink), reads past the end yield null, out-of-range arguments fail with the array unchanged, every write lies inside "
               "the capacity, no size_t wrap or out-of-bounds access is reachable, the released elements are exactly the overwritten/deleted "
-              "non-null ones and each element is released exactly once up to destruction; the model's merge sort yields the unique ordered "
-              "permutation and its binary search finds a key iff it is an element (Coq, induction over histories, no axioms).  The model is tied "
+              "non-null ones and each element is released exactly once up to destruction; in every reachable state (after any history, "
+              "including earlier sorts by either comparator and in-place changes of element values) the model's merge sort yields the unique "
+              "permutation of the current contents ordered by the comparator given, a function of contents and comparator alone, and its binary "
+              "search finds a key iff it is an element (Coq, induction over histories, no axioms).  The model is tied "
               "to arraylist.c and to the json_object_array_* functions of json_object.c on every run by differential execution of the "
               "extracted model and the ASan/UBSan build on generated histories aimed at the proof's case-split boundaries.")
 LEVEL_NOTE = ("Trusted: Coq kernel; extraction + OCaml glue; harness; libc malloc/realloc/qsort/bsearch (qsort/bsearch are compared through key "
